@@ -512,6 +512,16 @@ Hops(i) ==
     [] k = "skipuntil" -> Hops(n.b) + 1
     [] k \in {"flatmap", "switchmap"} -> Hops(n.a) + Hops(n.b)
     [] OTHER -> INF
+\* Rate(i): elements per scheduling round node i may deliver when every source reschedules per element (errs upwards)
+RECURSIVE Rate(_)
+Rate(i) ==
+  LET n == nd[i]  k == n.k IN
+  CASE k \in {"loop", "resched", "one", "sync", "concatinf", "empty", "never"} -> 1
+    [] k \in {"map", "defer", "share", "take", "takeuntil", "skipuntil", "wlf"} -> Rate(n.a)
+    [] k \in {"merge", "cl"} -> Sat(Rate(n.a) + Rate(n.b))
+    [] k \in {"amb", "concat"} -> Mx(Rate(n.a), Rate(n.b))
+    [] k = "zip" -> Mn(Rate(n.a), Rate(n.b))
+    [] OTHER -> INF                          \* flat_map, switch_map: not bounded by a constant
 RECURSIVE Out(_)
 Out(i) ==
   LET n == nd[i]  k == n.k IN
@@ -535,7 +545,8 @@ Out(i) ==
     [] k \in {"flatmap", "switchmap"} ->
          \* a never-ending outer source switches away from every inner source that needs more than one scheduling step
          \* to speak (e.g. one that subscribes its own sources from a scheduled action): inherent in switching, C14 is silent
-         {IF k = "switchmap" /\ o[1] = INF /\ Hops(n.b) > 1 THEN <<0, FALSE>>
+         \* (so the inner source must speak within one step, and the outer one deliver at most one element per round)
+         {IF k = "switchmap" /\ o[1] = INF /\ (Hops(n.b) > 1 \/ Rate(n.a) > 1) THEN <<0, FALSE>>
           ELSE <<IF o[1] = 0 \/ q[1] = 0 THEN 0 ELSE IF o[1] = INF \/ q[1] = INF THEN INF ELSE o[1] * q[1],
                  o[2] /\ (o[1] = 0 \/ q[2])>> : o \in Out(n.a), q \in Out(n.b)}
     [] OTHER -> {<<0, FALSE>>}                \* never, chaos
